@@ -93,6 +93,8 @@ CORRUPT = {
     "leading-space": lambda s, k, v: f' {s}_{k}="{v}"',
     "empty-line": lambda s, k, v: "",
     "single-quotes": lambda s, k, v: f"{s}_{k}='{v}'",
+    "cut-behind-open-quote": lambda s, k, v: f'{s}_{k}="',
+    "cut-behind-equals": lambda s, k, v: f'{s}_{k}=',
 }
 
 
